@@ -55,7 +55,18 @@ def _fixture(auto_at_open, path):
     E["section"] = sec = f.create_section("sec", "t")
     E["subsection"] = sec.create_section("sub", "t")
     E["property"] = sec.create_property("p", [1, 2])
+    # dimension descriptors (not entities: they carry no timestamps of their own)
+    DIMS.clear()
+    DIMS["s"] = da.append_sampled_dimension(0.5, unit="s")
+    DIMS["r"] = da2.append_range_dimension([1.0, 2.0])
+    DIMS["set"] = da2.append_set_dimension(["a"])
+    DIMS["lr"] = E["da3"].append_range_dimension([1.0, 2.0])
+    DIMS["lr"].link_data_array(da2, [-1, 0])          # takes ticks, unit and label from da2
+    E["da3"].append_set_dimension(["b"])
     return E
+
+
+DIMS = {}
 
 
 def _node_of(ent):
@@ -149,6 +160,21 @@ def _other_ops():
         (None, "group member", lambda E: E["group"].data_arrays.append(E["data_array"])),
         (None, "sources", lambda E: E["data_array"].sources.append(E["source"])),
         (None, "metadata", lambda E: setattr(E["data_array"], "metadata", E["section"])),
+        # attributes of dimension descriptors, own and linked
+        (None, "sampled unit", lambda E: setattr(DIMS["s"], "unit", "ms")),
+        (None, "sampled label", lambda E: setattr(DIMS["s"], "label", "t")),
+        (None, "sampled offset", lambda E: setattr(DIMS["s"], "offset", 1.0)),
+        (None, "sampled interval", lambda E: setattr(DIMS["s"], "sampling_interval", 0.25)),
+        (None, "range ticks", lambda E: setattr(DIMS["r"], "ticks", [3.0, 4.0])),
+        (None, "range unit", lambda E: setattr(DIMS["r"], "unit", "ms")),
+        (None, "range label", lambda E: setattr(DIMS["r"], "label", "t")),
+        (None, "set labels", lambda E: setattr(DIMS["set"], "labels", ["z"])),
+        (None, "linked range unit", lambda E: setattr(DIMS["lr"], "unit", "ms")),
+        (None, "linked range label", lambda E: setattr(DIMS["lr"], "label", "t")),
+        (None, "link a dimension", lambda E: DIMS["r"].link_data_array(E["da3"], [-1, 0])),
+        (None, "replace a link", lambda E: DIMS["lr"].link_data_array(E["da3"], [-1, 0])),
+        (None, "ticks over a link", lambda E: setattr(DIMS["lr"], "ticks", [5.0, 6.0])),
+        (None, "delete dimensions", lambda E: E["da2"].delete_dimensions()),
     ]
 
 
@@ -197,7 +223,7 @@ def _ob_listed(opi: int, auto: bool, toggle: bool, c0: int, c1: int) -> bool:
 def _ob_other(opi: int, auto: bool, c0: int, c1: int) -> bool:
     """
     pre: 0 <= c0 <= c1
-    pre: 0 <= opi < 8
+    pre: 0 <= opi < 22
     post: __return__
     """
     return _policy(opi, auto, False, c0, c1, _other_ops(), PATH)
